@@ -436,6 +436,8 @@ impl VersionManager {
             self.active_readers.fetch_add(1, Ordering::Relaxed);
             (1, 1)
         };
+        #[cfg(feature = "zipora_verif")]
+        crate::verif_hooks::sched_point(413); // the token chain lock has just been released
 
         #[cfg(feature = "zipora_verif")]
         crate::verif_hooks::sched_point(411);
@@ -516,6 +518,8 @@ impl VersionManager {
             }
             (1, 1)
         };
+        #[cfg(feature = "zipora_verif")]
+        crate::verif_hooks::sched_point(404); // the token chain lock has just been released
 
         #[cfg(feature = "zipora_verif")]
         crate::verif_hooks::sched_point(402);
